@@ -12,6 +12,7 @@ import (
 	"strconv"
 	"strings"
 
+	"github.com/robertkrimen/otto"
 	"ottoverif/h"
 )
 
@@ -475,20 +476,33 @@ func goTokV(v reflect.Value) string {
 }
 
 // treeTok prints the structure of a Go value with the static types forgotten.
-func treeTok(g interface{}) string {
+func treeTok(g interface{}) string { return treeTokR(g, nil) }
+
+// treeTokR: res maps a raw otto.Value found inside the exported value (the cut of a cyclic graph) to the
+// address of the heap object it is; such a value prints as the struct {"": address}.
+func treeTokR(g interface{}, res func(otto.Value) int) string {
 	if g == nil {
 		return "z"
 	}
-	return treeTokV(reflect.ValueOf(g))
+	return treeTokV(reflect.ValueOf(g), res)
 }
 
-func treeTokV(v reflect.Value) string {
+var ottoValueType = reflect.TypeOf(otto.Value{})
+
+func treeTokV(v reflect.Value, res func(otto.Value) int) string {
+	if v.Type() == ottoValueType {
+		a := -1
+		if res != nil {
+			a = res(v.Interface().(otto.Value))
+		}
+		return "O(,_,n:" + h.F64Hex(float64(a)) + ")"
+	}
 	switch v.Kind() {
 	case reflect.Interface, reflect.Ptr:
 		if v.IsNil() {
 			return "z"
 		}
-		return treeTokV(v.Elem())
+		return treeTokV(v.Elem(), res)
 	case reflect.Bool:
 		if v.Bool() {
 			return "t"
@@ -506,14 +520,14 @@ func treeTokV(v reflect.Value) string {
 		var b strings.Builder
 		b.WriteString("A(")
 		for i := 0; i < v.Len(); i++ {
-			b.WriteString(treeTokV(v.Index(i)) + ",")
+			b.WriteString(treeTokV(v.Index(i), res) + ",")
 		}
 		b.WriteString(")")
 		return b.String()
 	case reflect.Map:
 		var kvs []kv
 		for _, k := range v.MapKeys() {
-			kvs = append(kvs, kv{k.String(), treeTokV(v.MapIndex(k))})
+			kvs = append(kvs, kv{k.String(), treeTokV(v.MapIndex(k), res)})
 		}
 		return "O(" + joinKVs(kvs) + ")"
 	case reflect.Struct:
@@ -522,7 +536,7 @@ func treeTokV(v reflect.Value) string {
 			if v.Field(i).IsZero() {
 				continue
 			}
-			kvs = append(kvs, kv{v.Type().Field(i).Name, treeTokV(v.Field(i))})
+			kvs = append(kvs, kv{v.Type().Field(i).Name, treeTokV(v.Field(i), res)})
 		}
 		return "O(" + joinKVs(kvs) + ")"
 	}
